@@ -26,19 +26,23 @@ TECHNIQUE = ("'opened without fallbacks' completeness oracle on the real stacked
 LEVEL_TEXT = ("every generated (history, split point, way of creating the stacked branch, sequence of pull/fetch/push/commit/merge steps) is executed on the "
               "real code; after every step the stacked repository is judged without and with its fallback")
 RULE = ("case = random history (<= 8 quick / <= 14 thorough revisions, <= 3 branches, merges, ghosts) x split point on the left-hand history x creation "
-        "(sprout-stacked|clone-stacked-on|cmd-branch|cmd-push|fresh+set_stacked_on_url) x 1-5 follow-up steps (pull|fetch|push|commit|merge-commit|pack|commit-burst until autopack|push-bzr); "
+        "(sprout-stacked|clone-stacked-on|cmd-branch|cmd-push|fresh+set_stacked_on_url) x 1-5 follow-up steps (pull|fetch|push|commit|merge-commit|pack|commit-burst until autopack|install merge-directive bundle|push-bzr), plus batch reads of the stacked branch over bzr:// with mixed revision orders; "
         "one evaluation per judged step; non-trivial = the stacked repository holds at least one revision and the fallback holds one it does not; "
         "distinct = (format, creation, step kinds, local/fallback revision counts, graph shape)")
 CASES = {"quick": 48, "thorough": 640}
 BUDGET_S = {"quick": 45, "thorough": 780}
 MIN_EVALS = {"quick": 20, "thorough": 400}
-FLOORS = {"quick": {"local_parent_inventory": 20, "local_new_texts": 20, "local_delta": 20, "readable_with_fallbacks": 15, "check_clean": 15, "pack_steps": 5},
+FLOORS = {"quick": {"local_parent_inventory": 20, "local_new_texts": 20, "local_delta": 20, "readable_with_fallbacks": 15, "check_clean": 15, "pack_steps": 5, "bundle_steps": 4, "remote_batch_reads": 20, "remote_batch_mixed": 4},
           "thorough": {"local_parent_inventory": 800, "local_new_texts": 800, "local_delta": 800, "readable_with_fallbacks": 400, "check_clean": 400,
-                       "smart_steps": 20, "pack_steps": 150, "autopack_steps": 15}}
+                       "smart_steps": 20, "pack_steps": 150, "autopack_steps": 15, "bundle_steps": 80, "remote_batch_reads": 400, "remote_batch_mixed": 80}}
 ASSUMPTIONS = [
     "ghost parents (never committed by the generator, absent from stacked repository and fallback) are exempt",
+    "a revision whose complete tree (all inventory pages, all texts) is stored in the stacked repository itself is not required to have its parent inventories there "
+    "(breezy's own formulation of the invariant: 'either all of the file content, or the parent inventory and the delta file content'); a bundle of revisions that "
+    "rewrote every file legitimately arrives that way",
     "'texts that differ from the parents' = inventory entries whose (file_id, last-changed revision) no present parent tree carries",
-    "pre-2a stacked formats refuse direct commits (documented); only fetch/pull/push steps are applied to them",
+    "pre-2a stacked formats refuse direct commits (documented) and have no commit-time completeness check, so bundle installation is outside the property there "
+    "(the property quantifies over 2a stacked formats): only fetch/pull/push/pack steps are applied to them",
     "the fallback repository itself is never modified after the stacked branch was created",
 ]
 
@@ -93,10 +97,20 @@ def judge(ctx, stk_path, g, label, src_repo_path=None):
                 continue
             tree_f = F.revision_tree(r)
             parent_trees_f = []
+            self_contained = None
             for p in present_parents:
                 ctx.count("local_parent_inventory")
                 if (p,) not in inv_keys:
-                    ctx.fail("local:parent-inventory-missing", "%s: revision %r is in the stacked repository, inventory of its parent %r is not" % (label, r, p), d)
+                    # breezy's own statement of the stacking invariant (VersionedFileCommitBuilder._ensure_fallback_inventories):
+                    # "for any revision that is present, we either have all of the file content, or we have the parent inventory
+                    # and the delta file content".  A revision whose whole tree is stored locally needs no parent inventory.
+                    if self_contained is None:
+                        self_contained = _self_contained(Lr, r, text_keys)
+                    if self_contained:
+                        ctx.count("self_contained_without_parent_inventory")
+                    else:
+                        ctx.fail("local:parent-inventory-missing", "%s: revision %r is in the stacked repository, inventory of its parent %r is not "
+                                 "(and the revision's own tree is not completely stored there either)" % (label, r, p), d)
                 parent_trees_f.append(F.revision_tree(p))
             # texts no parent carries
             ctx.count("local_new_texts")
@@ -195,6 +209,80 @@ def judge(ctx, stk_path, g, label, src_repo_path=None):
     return n_local, n_fb
 
 
+def _self_contained(Lr, r, text_keys):
+    """True if the stacked repository alone holds the complete tree of r: every inventory page and every text it references."""
+    try:
+        inv = Lr.revision_tree(r).root_inventory
+        for _path, ie in inv.iter_entries():
+            if ie.parent_id is None:
+                continue  # the (empty) text of the tree root is not needed to read or stream the tree: bundles do not carry it
+            if (ie.file_id, ie.revision) not in text_keys:
+                return False
+        return True
+    except Exception:
+        return False
+
+
+def remote_batch_read(ctx, rng, stk_path, g, label):
+    """Read the stacked branch through an in-process bzr:// server in ONE batch per call, with revision lists that mix
+    fallback-only and stacked-repository revisions in hostile orders; every tree must equal the local read."""
+    from breezy.branch import Branch
+
+    d = {"case": label}
+    lb = Branch.open(stk_path)
+    tip = lb.last_revision()
+    if tip == L.NULL:
+        return
+    with lb.lock_read():
+        F = lb.repository
+        anc = sorted(r for r in g.ancestry(tip) if F.has_revision(r))
+    Lr = lb.controldir.open_repository()
+    with Lr.lock_read():
+        local = set(Lr.all_revision_ids())
+    fb_only = [r for r in anc if r not in local]
+    held = [r for r in anc if r in local]
+    if not anc:
+        return
+    orders = []
+    if fb_only and held:
+        a, b = list(fb_only), list(held)
+        rng.shuffle(a)
+        rng.shuffle(b)
+        orders.append(("fallback-first", a + b))
+        ctx.count("remote_batch_mixed")
+    sh = list(anc)
+    rng.shuffle(sh)
+    orders.append(("shuffled", sh))
+    with lb.lock_read():
+        ref = {r: observe.snap_tree(lb.repository.revision_tree(r)) for r in anc}
+    served = boot.scratch_root()
+    with L.smart_server(served) as url:
+        rb = Branch.open(url.rstrip("/") + "/" + os.path.relpath(stk_path, served))
+        try:
+            rrepo = rb.repository
+            for oname, revs in orders:
+                for api in ("revision_trees", "iter_inventories"):
+                    ctx.count("remote_batch_reads")
+                    try:
+                        with rrepo.lock_read():
+                            if api == "revision_trees":
+                                got = {t.get_revision_id(): observe.snap_tree(t) for t in rrepo.revision_trees(revs)}
+                            else:
+                                got = {inv.revision_id: None for inv in rrepo.iter_inventories(revs)}
+                    except Exception as e:
+                        ctx.fail("remote-batch-read:raised", "%s: %s(%s order, %d fallback-only + %d stacked revisions) over bzr:// raised %r" % (
+                            label, api, oname, len(fb_only), len(held), e), d)
+                        continue
+                    if set(got) != set(revs):
+                        ctx.fail("remote-batch-read:incomplete", "%s: %s(%s) returned %d of %d revisions" % (label, api, oname, len(got), len(revs)), d)
+                    if api == "revision_trees":
+                        bad = sorted(r for r in got if r in ref and got[r] != ref[r])
+                        if bad:
+                            ctx.fail("remote-batch-read:tree-differs", "%s: %s(%s): %r differs from the local read" % (label, api, oname, bad[:3]), d)
+        finally:
+            L.disconnect(rb)
+
+
 # ---------------------------------------------------------------- the workload
 
 def case(ctx):
@@ -259,6 +347,8 @@ def case(ctx):
 
     def judged(step):
         nl, nf = judge(ctx, stk_path, g, "%s/after:%s" % (label, "+".join(steps)), src_path)
+        if nl > 0 and rng.random() < (0.6 if quick else 0.4):
+            remote_batch_read(ctx, rng, stk_path, g, "%s/after:%s" % (label, "+".join(steps)))
         ctx.hist("step:" + step)
         ctx.distinct("split", (nl > 0, nf > 0, min(nl, 4), min(nf, 4)))
         ctx.note((fmt, tuple(steps), nl, nf, sorted(g.pm[r] for r in g.ancestry(Branch.open(stk_path).last_revision()))),
@@ -270,10 +360,12 @@ def case(ctx):
     nsteps = rng.randint(1, 3)
     co_path = os.path.join(root, "co")
     n_commit = 0
-    kinds = ["pull", "fetch", "push", "pack"] + (["commit", "commit", "merge-commit", "merge-commit"] if can_commit else []) + ([] if quick else ["push-bzr", "pull-bzr"])
+    kinds = ["pull", "fetch", "push", "pack"] + (["bundle", "bundle"] if can_commit else []) + (["commit", "commit", "merge-commit", "merge-commit"] if can_commit else []) + ([] if quick else ["push-bzr", "pull-bzr"])
     plan = [rng.choice(kinds) for _i in range(nsteps)]
     # repacking must keep the parent inventories that were filled in from the fallback: an explicit pack() closes most cases,
     # some 2a cases run separate commits until the autopack of the tenth pack fires
+    if can_commit and rng.random() < 0.35:
+        plan.insert(rng.randint(0, len(plan)), "bundle")
     if can_commit and rng.random() < 0.2:
         plan.append("commit-burst")
     if plan[-1] != "pack" and rng.random() < 0.6:
@@ -282,6 +374,78 @@ def case(ctx):
         steps.append(step)
         stk = Branch.open(stk_path)
         cur = stk.last_revision()
+        if step == "bundle":
+            # a merge directive (bundle) of the revisions between the stacked tip and a descendant, installed into the stacked
+            # repository as `brz pull <file>` / `brz merge <file>` do.  A bundle does not carry the base's inventory: the installation
+            # is either refused with the repository unchanged, or what arrives is complete (judged as every other step).
+            from breezy import merge_directive
+
+            cands = []
+            for bn in bnames:
+                ob = Branch.open(hist.trees[bn])
+                for r in sorted(g.ancestry(ob.last_revision())):
+                    if r != cur and (cur == L.NULL or (cur in g.pm and cur in g.ancestry(r))):
+                        cands.append((hist.trees[bn], r))
+            if cur == L.NULL:
+                steps[-1] = "bundle:nothing-ahead"
+                continue
+            if not cands or rng.random() < 0.65:
+                # a contributor's branch made from the stacked tip: C adds a file and edits one, D edits again; most of the
+                # tree stays untouched, so the bundle carries neither the base inventory nor the unchanged texts
+                n_commit += 1
+                work = os.path.join(root, "work%d" % n_commit)
+                stk.controldir.sprout(work, revision_id=cur)
+                wwt = WorkingTree.open(work)
+                newname = "bundle-new-%d" % n_commit
+                with open(os.path.join(work, newname), "wb") as f:
+                    f.write(b"new in C %d\n" % n_commit)
+                wwt.add([newname], ids=[("bundle-new-id-%d-%d" % (ctx.index, n_commit)).encode()])
+                with wwt.lock_read():
+                    files = sorted(p for p, ie in wwt.iter_entries_by_dir() if ie.kind == "file" and p != newname and os.path.isfile(os.path.join(work, p)))
+                if files:
+                    with open(os.path.join(work, rng.choice(files)), "ab") as f:
+                        f.write(b"edited in C\n")
+                for tag in ("c", "d"):
+                    if tag == "d":
+                        with open(os.path.join(work, newname), "ab") as f:
+                            f.write(b"D\n")
+                    parents = wwt.get_parent_ids()
+                    rid = ("stk-%d-%d%s" % (ctx.index, n_commit, tag)).encode()
+                    wwt.commit("contributed %s" % tag, rev_id=rid, timestamp=1600000000 + n_commit, timezone=0, committer="C <c@example.com>")
+                    g.add(rid, parents)
+                sb_path, req = work, rid
+                steps[-1] = "bundle-contributed"
+            else:
+                sb_path, req = rng.choice(cands)
+            sb = Branch.open(sb_path)
+            md = merge_directive.MergeDirective2.from_objects(repository=sb.repository, revision_id=req, time=1600000000.0, timezone=0,
+                                                              target_branch=base_url, base_revision_id=cur)
+            received = merge_directive.MergeDirective.from_lines(md.to_lines())
+            alone = stk.controldir.open_repository()
+            with alone.lock_read():
+                held_before = set(alone.all_revision_ids())
+            ctx.count("bundle_steps")
+            refused = None
+            with stk.lock_write():
+                try:
+                    received.install_revisions(stk.repository)
+                except Exception as e:
+                    refused = e
+                else:
+                    stk.generate_revision_history(req)
+            if refused is not None:
+                ctx.hist("bundle:refused:%s" % type(refused).__name__)
+                alone = Branch.open(stk_path).controldir.open_repository()
+                with alone.lock_read():
+                    held_after = set(alone.all_revision_ids())
+                ctx.check(held_after == held_before, "bundle:refused-but-repository-changed", "%s: installation raised %r, stacked repository gained %r" % (
+                    label, refused, sorted(held_after - held_before)[:4]), {"case": label})
+                steps[-1] += ":refused"
+            else:
+                ctx.hist("bundle:accepted")
+                ctx.count("bundle_accepted")
+            judged(steps[-1])
+            continue
         if step == "pack":
             ctx.count("pack_steps")
             if rng.random() < 0.5:
